@@ -276,21 +276,29 @@ def none_atom(t: ast.AST, pol: bool) -> Optional[Tuple[ast.AST, bool]]:
     return None
 
 
-def is_mode_atom(t: ast.AST, pol: bool) -> bool:
-    """None tests and type tests: the documented mode splits of the constructors"""
+def is_mode_atom(t: ast.AST, pol: bool, names=None) -> bool:
+    """None tests and type tests: the documented mode splits of the constructors.  With `names`, only tests about
+    expressions built from those names count."""
     while isinstance(t, ast.UnaryOp) and isinstance(t.op, ast.Not):
         t = t.operand
-    if none_atom(t, True):
-        return True
-    for p in ("type($x) is $t", "type($x) is not $t", "type($x) == $t", "type($x) != $t", "type($x) in $t",
-              "type($x) not in $t", "isinstance($x, $t)"):
-        if match(p, t):
-            return True
-    return False
+    subj = None
+    na = none_atom(t, True)
+    if na:
+        subj = na[0]
+    else:
+        for p in ("type($x) is $t", "type($x) is not $t", "type($x) == $t", "type($x) != $t", "type($x) in $t",
+                  "type($x) not in $t", "isinstance($x, $t)"):
+            m = match(p, t)
+            if m:
+                subj = m['x']
+                break
+    if subj is None:
+        return False
+    return names is None or (names_in(subj) - {'list', 'sorted', 'set', 'tuple', 'dict', 'iter'}) <= set(names)
 
 
-def is_mode_clause(cl: List[Atom]) -> bool:
-    return all(is_mode_atom(a, p) for a, p in cl)
+def is_mode_clause(cl: List[Atom], names=None) -> bool:
+    return all(is_mode_atom(a, p, names) for a, p in cl)
 
 
 # ---------------------------------------------------------------------------------------------------- guards
@@ -306,6 +314,7 @@ class G:
         self.raise_node = raise_node
         self.anchor = anchor            # ast node inside the collecting function (raise stmt / helper call)
         self.via = via                  # helper call node or None
+        self.dom = None                 # cfg node (of the collecting function) where the guard is evaluated
 
     def __repr__(self):
         b = ' '.join(f"for {src(t)} in {src(i)}" for t, i in self.binders)
@@ -337,6 +346,20 @@ def fors_around(f: Func, node: ast.AST) -> List[ast.For]:
     return out
 
 
+def _guard_point(f: Func, cfg, raise_node):
+    """cfg node at which the guard is evaluated as a whole: the header of the outermost loop around the raise, else
+    the test of the innermost `if` around it, else the raise itself"""
+    fors = fors_around(f, raise_node)
+    if fors:
+        return cfg.node_of(fors[0])
+    best = None
+    for n in walk_no_nested(f.node):
+        if isinstance(n, ast.If) and any(x is raise_node for st in n.body + n.orelse for x in ast.walk(st)):
+            if best is None or any(x is n for x in ast.walk(best)):
+                best = n
+    return cfg.node_of(best) if best is not None else cfg.node_of(raise_node)
+
+
 def guard_facts(prog, typer, f: Func, depth: int = 0) -> List[G]:
     out: List[G] = []
     cfg0 = cfg_of(f)
@@ -351,7 +374,9 @@ def guard_facts(prog, typer, f: Func, depth: int = 0) -> List[G]:
         for t, pol in live_conditions(cfg0, rn, True):
             clauses += cnf(ex0.expand(t, cfg0.node_containing(t)), pol)
         binders = [(fo.target, ex0.expand(fo.iter, cfg0.node_of(fo))) for fo in fors_around(f, n)]
-        out.append(G(exc_name(n), clauses, binders, f, n, n))
+        g = G(exc_name(n), clauses, binders, f, n, n)
+        g.dom = _guard_point(f, cfg0, n)
+        out.append(g)
     if depth < 2:
         cfg = cfg_of(f)
         ex = Expander(prog, f, typer)
@@ -373,7 +398,9 @@ def guard_facts(prog, typer, f: Func, depth: int = 0) -> List[G]:
             for hg in guard_facts(prog, typer, h, depth + 1):
                 cl = [[(subst(a, sub), p) for a, p in clause] for clause in hg.clauses]
                 bs = [(t, subst(i, sub)) for t, i in hg.binders]
-                out.append(G(hg.exc, outer + cl, outer_b + bs, hg.func, hg.raise_node, c, via=c))
+                g = G(hg.exc, outer + cl, outer_b + bs, hg.func, hg.raise_node, c, via=c)
+                g.dom = cn
+                out.append(g)
     # any(.. for x in X) / len([x for x in X if ..]) > 0 as a universally bound raise
     for g in out:
         new = []
